@@ -3,6 +3,7 @@ package rules
 import (
 	"go/token"
 	"go/types"
+	"strings"
 
 	"gldapverif/an"
 
@@ -22,6 +23,7 @@ type kindMaps struct {
 	extNameFrom  map[string]string // message type name -> where extendedName comes from ("" or "Name")
 	problems     []string
 	unknownKind  string
+	viaConstEval bool // the tag table was read by constant evaluation (E6), not from the branch structure
 }
 
 func eqConstInt(cond ssa.Value) (ssa.Value, int64, bool) {
@@ -160,6 +162,61 @@ func (c *Ctx) kindMaps() *kindMaps {
 			// error return: default arm or requestPacket failure
 			if isConst && kind == km.unknownKind {
 				km.defaultIsErr = true
+			}
+		}
+	}
+	// ---- fallback (engine E6): the table could not be read from the branch structure (an array literal behind a
+	// bounds guard, a classifier helper, ...): evaluate requestType by constant propagation for every tag value
+	// 0..63 with only `...Tag` fixed, on the path where requestPacket() succeeds
+	{
+		tableProblem := false
+		for _, p := range km.problems {
+			if strings.HasPrefix(p, "requestType:") {
+				tableProblem = true
+			}
+		}
+		if tableProblem || len(km.tagToKind) == 0 {
+			byTag := map[int64]string{}
+			okAll := true
+			defErr := true
+			for k := int64(0); k < 64; k++ {
+				kk := k
+				ev := &constEval{hook: func(v ssa.Value) (cval, bool) {
+					if ld, isLd := v.(*ssa.UnOp); isLd && ld.Op == token.MUL {
+						if _, names := an.FieldChain(ld); len(names) > 0 && names[len(names)-1] == "Tag" && ld.Parent() == km.requestType {
+							return cval{k: 'i', i: kk}, true
+						}
+					}
+					return cval{}, false
+				}}
+				res, ok := ev.run(km.requestType, []cval{{}}, 0)
+				if !ok || len(res) != 2 {
+					okAll = false
+					break
+				}
+				switch {
+				case res[1].k == 'n' && res[0].k == 's':
+					byTag[k] = res[0].s
+				case res[1].k == 'e':
+					// error for this tag
+				default:
+					okAll = false
+				}
+				if res[1].k == 'n' && res[0].k == 's' && res[0].s == km.unknownKind {
+					defErr = false
+				}
+			}
+			if okAll && len(byTag) > 0 {
+				var kept []string
+				for _, p := range km.problems {
+					if !strings.HasPrefix(p, "requestType:") {
+						kept = append(kept, p)
+					}
+				}
+				km.problems = kept
+				km.tagToKind = byTag
+				km.defaultIsErr = defErr
+				km.viaConstEval = true
 			}
 		}
 	}
